@@ -805,7 +805,6 @@ Qed.
 (* ================================================================== no backslash in an accepted authority *)
 (* WHATWG readers treat a backslash like a slash in http(s) URLs. Go rejects every authority
    that contains one, so that difference cannot move the authority boundary of an accepted URI. *)
-Definition c_bslash : N := 92.
 
 Lemma unescape_hostish_no_bslash m s : is_hostish m = true -> In c_bslash s -> unescape m s = None.
 Proof.
@@ -897,4 +896,393 @@ Proof.
   destruct (parse_host (h ++ opt_port port)); [|discriminate].
   destruct (valid_userinfo s) eqn:Ev; [|discriminate].
   unfold valid_userinfo in Ev. rewrite forallb_forall in Ev. specialize (Ev _ Hin). discriminate Ev.
+Qed.
+
+(* ================================================================== URL.String() of the authority *)
+(* The code redirect is written with URL.String(): scheme "://" [Userinfo.String() "@"] escape(Host).
+   Every RFC reading of that text (followed by a path/query/fragment) has Go's Hostname() as host. *)
+
+Lemma hex_digit_ok n : n < 16 -> is_hex (hex_digit n) = true /\ unhex (hex_digit n) = n.
+Proof.
+  intros H. unfold hex_digit. destruct (N.ltb_spec n 10).
+  - unfold is_hex, unhex, is_digit. split; [lia|]. assert (E : (48 <=? 48 + n) && (48 + n <=? 57) = true) by lia.
+    rewrite E. lia.
+  - unfold is_hex, unhex, is_digit. split; [lia|].
+    assert (E1 : (48 <=? 55 + n) && (55 + n <=? 57) = false) by lia.
+    assert (E2 : (97 <=? 55 + n) && (55 + n <=? 102) = false) by lia.
+    assert (E3 : (65 <=? 55 + n) && (55 + n <=? 70) = true) by lia.
+    rewrite E1, E2, E3. lia.
+Qed.
+
+Lemma should_escape_pct m : should_escape c_pct m = true.
+Proof. destruct m; reflexivity. Qed.
+
+(* unescaping (path mode: no restrictions) an escape output gives the original back *)
+Lemma unescape_escape m s : forallb byte_ok s = true -> unescape MPath (escape m s) = Some s.
+Proof.
+  induction s as [|c s IH]; intros H; [reflexivity|]. cbn [forallb] in H. apply andb_true_iff in H as [Hc Hs].
+  unfold escape. cbn [flat_map]. fold (escape m s). unfold escape_byte.
+  destruct (should_escape c m) eqn:E.
+  - cbn [app]. rewrite unescape_pct, (IH Hs). unfold unescape_pct_body.
+    unfold byte_ok in Hc. apply N.ltb_lt in Hc.
+    assert (H1 : c / 16 < 16) by (apply N.div_lt_upper_bound; lia).
+    assert (H2 : c mod 16 < 16) by (apply N.mod_lt; lia).
+    destruct (hex_digit_ok _ H1) as [A1 B1]. destruct (hex_digit_ok _ H2) as [A2 B2].
+    rewrite A1, A2, B1, B2. cbn [andb]. cbv zeta.
+    replace (c / 16 * 16 + c mod 16) with c by (rewrite (N.div_mod c 16) at 1 by lia; lia).
+    reflexivity.
+  - cbn [app]. assert (Hne : c <> c_pct) by (intros ->; rewrite should_escape_pct in E; discriminate).
+    rewrite unescape_other by exact Hne. cbn [is_hostish andb]. rewrite (IH Hs). reflexivity.
+Qed.
+
+Lemma escape_app m a b : escape m (a ++ b) = escape m a ++ escape m b.
+Proof. unfold escape. apply flat_map_app. Qed.
+
+Lemma escape_plain m s : forallb (fun c => negb (should_escape c m)) s = true -> escape m s = s.
+Proof.
+  induction s as [|c s IH]; [reflexivity|]. cbn [forallb]. rewrite andb_true_iff, negb_true_iff. intros [Hc Hs].
+  unfold escape. cbn [flat_map]. fold (escape m s). unfold escape_byte. rewrite Hc, (IH Hs). reflexivity.
+Qed.
+
+(* a byte that needs no escaping survives literally *)
+Lemma escape_raw_in m c s : In c s -> should_escape c m = false -> In c (escape m s).
+Proof.
+  intros Hin Hc. induction s as [|d s IH]; [destruct Hin|].
+  unfold escape. cbn [flat_map]. fold (escape m s). apply in_or_app. destruct Hin as [->|Hin].
+  - left. unfold escape_byte. rewrite Hc. left. reflexivity.
+  - right. exact (IH Hin).
+Qed.
+
+(* the bytes of an escape output: '%', upper-case hex digits, or raw bytes that need no escaping *)
+Lemma escape_chars m s c : forallb byte_ok s = true -> In c (escape m s) ->
+  c = c_pct \/ is_hex c = true \/ (In c s /\ should_escape c m = false).
+Proof.
+  induction s as [|d s IH]; intros Hs Hin; [destruct Hin|].
+  cbn [forallb] in Hs. apply andb_true_iff in Hs as [Hd Hs].
+  unfold escape in Hin. cbn [flat_map] in Hin. fold (escape m s) in Hin.
+  apply in_app_or in Hin as [Hin|Hin].
+  - unfold escape_byte in Hin. destruct (should_escape d m) eqn:E.
+    + unfold byte_ok in Hd. apply N.ltb_lt in Hd.
+      assert (H1 : d / 16 < 16) by (apply N.div_lt_upper_bound; lia).
+      assert (H2 : d mod 16 < 16) by (apply N.mod_lt; lia).
+      destruct Hin as [<-|[<-|[<-|[]]]]; [left; reflexivity | right; left; apply hex_digit_ok; exact H1
+                                          | right; left; apply hex_digit_ok; exact H2].
+    + destruct Hin as [<-|[]]. right. right. split; [left; reflexivity | exact E].
+  - destruct (IH Hs Hin) as [G|[G|[G1 G2]]]; auto. right. right. split; [right; exact G1 | exact G2].
+Qed.
+
+Definition auth_delim (c : N) : bool := is_auth_end c || N.eqb c c_at.
+
+Lemma escape_no_delim m s : (m = MHost \/ m = MUser) -> forallb byte_ok s = true ->
+  forallb (fun c => negb (auth_delim c)) (escape m s) = true.
+Proof.
+  intros Hm Hs. apply forallb_forall. intros c Hin. apply negb_true_iff.
+  destruct (auth_delim c) eqn:E; [|reflexivity]. exfalso.
+  assert (Hc : c = c_slash \/ c = c_qmark \/ c = c_hash \/ c = c_at).
+  { unfold auth_delim, is_auth_end in E. rewrite !orb_true_iff, !N.eqb_eq in E. tauto. }
+  destruct (escape_chars m s c Hs Hin) as [G|[G|[_ G]]].
+  - destruct Hc as [->|[->|[->| ->]]]; discriminate G.
+  - destruct Hc as [->|[->|[->| ->]]]; discriminate G.
+  - destruct Hm as [->| ->]; destruct Hc as [->|[->|[->| ->]]]; discriminate G.
+Qed.
+
+(* core: an RFC host[:port] reading of escape(Host) names Go's Hostname() *)
+Lemma escaped_host_name H h p :
+  forallb byte_ok H = true -> escape MHost H = h ++ opt_port p ->
+  host_ok h -> (forall x, p = Some x -> port_ok x) ->
+  fst (split_host_port H) = rfc_hostname h.
+Proof.
+  intros Hb E Hh Hp. pose proof (unescape_escape MHost H Hb) as U. rewrite E in U.
+  assert (Hpl : forall x, forallb is_digit x = true -> forallb (plain_in MPath) x = true).
+  { intros x. apply forallb_impl. intros c Hc. unfold plain_in. cbn [is_hostish andb negb]. rewrite andb_true_r.
+    apply negb_true_iff, N.eqb_neq. unfold is_digit in Hc. unfold c_pct. lia. }
+  unfold rfc_hostname. destruct Hh as [Hreg | [b [-> Hbk]]].
+  - (* reg-name *)
+    assert (Hnl : ~ In c_lbr h) by (apply (forallb_notin _ _ _ Hreg); reflexivity).
+    assert (Hnc : ~ In c_colon h) by (apply (forallb_notin _ _ _ Hreg); reflexivity).
+    rewrite (strip_brackets_no_lbr h Hnl).
+    destruct p as [x|]; cbn [opt_port] in *.
+    + destruct (unescape_split MPath h c_colon x H U) as [tx [ty [Hx [Hy ->]]]]; [reflexivity | discriminate|].
+      rewrite unescape_plain in Hy by (cbn [forallb]; rewrite (Hpl x (Hp x eq_refl)); reflexivity).
+      inversion Hy; subst ty. rewrite <- (unescape_decode _ _ _ Hx).
+      (* h is the escape of tx, so tx has no raw colon or bracket *)
+      rewrite escape_app in E.
+      assert (Ex : escape MHost (c_colon :: x) = c_colon :: x).
+      { apply escape_plain. cbn [forallb]. apply andb_true_iff. split; [reflexivity|].
+        generalize (Hp x eq_refl). apply forallb_impl. intros c Hc. apply negb_true_iff.
+        unfold should_escape, is_alnum. assert (Ed : is_alpha c || is_digit c = true) by (rewrite Hc; apply orb_true_r).
+        rewrite Ed. reflexivity. }
+      rewrite Ex in E. apply app_inv_tail in E.
+      apply (hostname_regname tx (Some x)); [| |exact Hp].
+      * intros Hin. apply Hnc. rewrite <- E. apply escape_raw_in; [exact Hin | reflexivity].
+      * intros Hin. apply Hnl. rewrite <- E. apply escape_raw_in; [exact Hin | reflexivity].
+    + rewrite app_nil_r in U, E. rewrite <- (unescape_decode _ _ _ U).
+      pose proof (hostname_regname H None) as G. cbn [opt_port] in G. rewrite app_nil_r in G. apply G; [| |discriminate].
+      * intros Hin. apply Hnc. rewrite <- E. apply escape_raw_in; [exact Hin | reflexivity].
+      * intros Hin. apply Hnl. rewrite <- E. apply escape_raw_in; [exact Hin | reflexivity].
+  - (* IP-literal *)
+    rewrite strip_brackets_bracketed.
+    replace ((c_lbr :: b ++ [c_rbr]) ++ opt_port p) with ((c_lbr :: b) ++ c_rbr :: opt_port p) in U
+      by (simpl; rewrite <- app_assoc; reflexivity).
+    destruct (unescape_split MPath (c_lbr :: b) c_rbr (opt_port p) H U) as [tx [ty [Hx [Hy ->]]]]; [reflexivity | discriminate|].
+    assert (Hv := opt_port_valid p Hp).
+    assert (Hty : ty = c_rbr :: opt_port p).
+    { rewrite unescape_plain in Hy; [inversion Hy; reflexivity|]. cbn [forallb]. apply andb_true_iff. split; [reflexivity|].
+      destruct p as [x|]; [|reflexivity]. cbn [opt_port forallb]. apply andb_true_iff. split; [reflexivity|].
+      apply Hpl. exact (Hp x eq_refl). }
+    subst ty. destruct (unescape_cons_plain MPath c_lbr b tx) as [tb [Htb ->]]; [reflexivity | exact Hx|].
+    rewrite <- (unescape_decode _ _ _ Htb). apply hostname_bracket. exact Hv.
+Qed.
+
+Lemma userinfo_string_no_delim ui :
+  forallb byte_ok (ui_name ui) = true ->
+  (forall p, ui_pass ui = Some p -> forallb byte_ok p = true) ->
+  forallb (fun c => negb (auth_delim c)) (userinfo_string ui) = true.
+Proof.
+  intros Hn Hp. unfold userinfo_string. rewrite forallb_app'.
+  rewrite (escape_no_delim MUser _ (or_intror eq_refl) Hn). cbn [andb].
+  destruct (ui_pass ui) as [p|]; [|reflexivity]. cbn [forallb].
+  rewrite (escape_no_delim MUser _ (or_intror eq_refl) (Hp p eq_refl)). reflexivity.
+Qed.
+
+Lemma no_delim_not_end s : forallb (fun c => negb (auth_delim c)) s = true -> forallb not_end s = true.
+Proof.
+  apply forallb_impl. intros c. unfold auth_delim, not_end. rewrite !negb_true_iff, orb_false_iff. tauto.
+Qed.
+
+Lemma no_delim_no_at s : forallb (fun c => negb (auth_delim c)) s = true -> ~ In c_at s.
+Proof. intros H. apply (forallb_notin _ _ _ H). reflexivity. Qed.
+
+Theorem string_authority_host sch u tail s' ui' h' p' r' :
+  (sch = [] \/ scheme_ok sch) ->
+  forallb byte_ok (u_host u) = true ->
+  (forall ui, u_user u = Some ui ->
+     forallb byte_ok (ui_name ui) = true /\ (forall p, ui_pass ui = Some p -> forallb byte_ok p = true)) ->
+  rest_ok tail ->
+  rfc_split (authority_string sch u ++ tail) s' ui' h' p' r' ->
+  rfc_hostname h' = hostname u.
+Proof.
+  intros Hsch Hb Hub Htail Hsplit. apply rfc_read_complete in Hsplit.
+  set (UI := match u_user u with Some ui => userinfo_string ui ++ [c_at] | None => [] end).
+  set (E := escape MHost (u_host u)).
+  assert (HE : forallb (fun c => negb (auth_delim c)) E = true)
+    by (apply escape_no_delim; [left; reflexivity | exact Hb]).
+  assert (Hloc : authority_string sch u ++ tail =
+                 (if is_nil sch then [] else sch ++ [c_colon]) ++ [c_slash; c_slash] ++ (UI ++ E) ++ tail).
+  { unfold authority_string. fold UI. fold E. rewrite <- !app_assoc. reflexivity. }
+  rewrite Hloc in Hsplit. unfold rfc_read in Hsplit.
+  assert (E1 : split_scheme ((if is_nil sch then [] else sch ++ [c_colon]) ++ [c_slash; c_slash] ++ (UI ++ E) ++ tail)
+               = (if is_nil sch then None else Some sch, [c_slash; c_slash] ++ (UI ++ E) ++ tail)).
+  { destruct Hsch as [->|Hok].
+    - reflexivity.
+    - destruct sch as [|c sch]; [destruct Hok|]. cbn [is_nil]. rewrite <- app_assoc. cbn [app].
+      exact (split_scheme_complete (c :: sch) _ Hok). }
+  rewrite E1 in Hsplit. rewrite has_prefix_app in Hsplit.
+  change (skipn 2 ([c_slash; c_slash] ++ (UI ++ E) ++ tail)) with ((UI ++ E) ++ tail) in Hsplit.
+  assert (HUI : forallb not_end UI = true /\
+                match cut_last c_at (UI ++ E) with Some (a, b) => b = E | None => UI = [] end).
+  { unfold UI. destruct (u_user u) as [ui|] eqn:Eu.
+    - destruct (Hub ui eq_refl) as [Hn Hp]. pose proof (userinfo_string_no_delim ui Hn Hp) as Hd. split.
+      + rewrite forallb_app'. rewrite (no_delim_not_end _ Hd). reflexivity.
+      + rewrite <- app_assoc. cbn [app]. rewrite cut_last_app by (apply no_delim_no_at; exact HE). reflexivity.
+    - split; [reflexivity|]. cbn [app]. rewrite cut_last_notin by (apply no_delim_no_at; exact HE). reflexivity. }
+  destruct HUI as [HUI1 HUI2].
+  rewrite span_authority_app in Hsplit; [| |exact Htail].
+  2:{ rewrite forallb_app', HUI1, (no_delim_not_end _ HE). reflexivity. }
+  assert (Hhp : read_hostport E = Some (h', p')).
+  { destruct (cut_last c_at (UI ++ E)) as [[a b]|].
+    - subst b. destruct (read_hostport E) as [[hh pp]|]; [|discriminate]. inversion Hsplit; reflexivity.
+    - subst UI. rewrite HUI2 in Hsplit. cbn [app] in Hsplit.
+      destruct (read_hostport E) as [[hh pp]|]; [|discriminate]. inversion Hsplit; reflexivity. }
+  destruct (read_hostport_sound _ _ _ Hhp) as [HEq [Hh Hp]].
+  unfold hostname. symmetry. exact (escaped_host_name (u_host u) h' p' Hb HEq Hh Hp).
+Qed.
+
+(* ================================================================== bytes stay bytes *)
+Lemma unhex_lt c : is_hex c = true -> unhex c < 16.
+Proof.
+  unfold is_hex, unhex, is_digit. intros H.
+  destruct ((48 <=? c) && (c <=? 57)) eqn:A1; [lia|]. destruct ((97 <=? c) && (c <=? 102)) eqn:A2; [lia|].
+  destruct ((65 <=? c) && (c <=? 70)) eqn:A3; lia.
+Qed.
+
+Lemma unescape_bytes m s : forall t, unescape m s = Some t -> forallb byte_ok s = true -> forallb byte_ok t = true.
+Proof.
+  induction s as [s IH] using str_strong_ind. intros t H Hb.
+  destruct s as [|c s]; [inversion H; reflexivity|].
+  cbn [forallb] in Hb. apply andb_true_iff in Hb as [Hc Hs].
+  destruct (N.eq_dec c c_pct) as [->|Hne].
+  - destruct s as [|h1 [|h2 s]]; [discriminate | discriminate|].
+    rewrite unescape_pct in H. apply unescape_pct_body_some in H as [Hh [t' [Ht ->]]].
+    cbn [forallb] in Hs. apply andb_true_iff in Hs as [_ Hs]. apply andb_true_iff in Hs as [_ Hs].
+    cbn [forallb]. rewrite (IH s) with (t := t'); [|simpl; lia | exact Ht | exact Hs].
+    apply andb_true_iff in Hh as [H1 H2]. apply unhex_lt in H1, H2. unfold byte_ok. rewrite andb_true_r. lia.
+  - rewrite unescape_other in H by exact Hne.
+    destruct (is_hostish m && (c <? 128) && should_escape c m); [discriminate|].
+    destruct (unescape m s) as [t'|] eqn:E; [|discriminate]. inversion H; subst.
+    cbn [forallb]. rewrite Hc, (IH s) with (t := t'); [reflexivity | simpl; lia | exact E | exact Hs].
+Qed.
+
+Lemma bytes_app_l a b : forallb byte_ok (a ++ b) = true -> forallb byte_ok a = true.
+Proof. rewrite forallb_app', andb_true_iff. tauto. Qed.
+Lemma bytes_app_r a b : forallb byte_ok (a ++ b) = true -> forallb byte_ok b = true.
+Proof. rewrite forallb_app', andb_true_iff. tauto. Qed.
+Lemma bytes_cons_r c b : forallb byte_ok (c :: b) = true -> forallb byte_ok b = true.
+Proof. cbn [forallb]. rewrite andb_true_iff. tauto. Qed.
+
+Lemma parse_host_bytes hp host : parse_host hp = Some host -> forallb byte_ok hp = true -> forallb byte_ok host = true.
+Proof.
+  intros H Hb. unfold parse_host in H. destruct (has_prefix hp [c_lbr]).
+  - destruct (cut_last c_rbr hp) as [[before cp]|] eqn:E; [|discriminate].
+    destruct (negb (valid_optional_port cp)); [discriminate|].
+    apply cut_last_some in E as [E _].
+    destruct (index_pct25 before) as [[h1 h2]|] eqn:Ez; [|exact (unescape_bytes _ _ _ H Hb)].
+    apply index_pct25_spec in Ez. subst before. subst hp.
+    destruct (unescape MHost h1) as [a|] eqn:E1; [|discriminate].
+    destruct (unescape MZone h2) as [b|] eqn:E2; [|discriminate].
+    destruct (unescape MHost (c_rbr :: cp)) as [c|] eqn:E3; [|discriminate]. inversion H; subst host.
+    rewrite !forallb_app'.
+    rewrite (unescape_bytes _ _ _ E1 (bytes_app_l _ _ (bytes_app_l _ _ Hb))).
+    rewrite (unescape_bytes _ _ _ E2 (bytes_app_r _ _ (bytes_app_l _ _ Hb))).
+    rewrite (unescape_bytes _ _ _ E3 (bytes_app_r _ _ Hb)). reflexivity.
+  - destruct (cut_last c_colon hp) as [[a b]|]; [|exact (unescape_bytes _ _ _ H Hb)].
+    destruct (forallb is_digit b); [exact (unescape_bytes _ _ _ H Hb) | discriminate].
+Qed.
+
+Definition user_bytes (o : option userinfo) : Prop :=
+  forall ui, o = Some ui ->
+    forallb byte_ok (ui_name ui) = true /\ (forall p, ui_pass ui = Some p -> forallb byte_ok p = true).
+
+Lemma parse_authority_bytes a user host :
+  parse_authority a = Some (user, host) -> forallb byte_ok a = true ->
+  forallb byte_ok host = true /\ user_bytes user.
+Proof.
+  intros H Hb. unfold parse_authority in H.
+  destruct (cut_last c_at a) as [[x y]|] eqn:E.
+  - apply cut_last_some in E as [-> _]. cbv beta iota zeta in H.
+    destruct (parse_host y) as [host'|] eqn:Eh; [|discriminate].
+    pose proof (parse_host_bytes _ _ Eh (bytes_cons_r _ _ (bytes_app_r _ _ Hb))) as Hh.
+    pose proof (bytes_app_l _ _ Hb) as Hx.
+    destruct (negb (valid_userinfo x)); [discriminate|].
+    destruct (cut c_colon x) as [n [p|]] eqn:Ec.
+    + apply cut_some in Ec as [-> _].
+      destruct (unescape MUser n) as [n'|] eqn:En; [|discriminate].
+      destruct (unescape MUser p) as [p'|] eqn:Ep; [|discriminate]. inversion H; subst.
+      split; [exact Hh|]. intros ui Hui. inversion Hui; subst. cbn [ui_name ui_pass]. split.
+      * exact (unescape_bytes _ _ _ En (bytes_app_l _ _ Hx)).
+      * intros p0 Hp0. inversion Hp0; subst. exact (unescape_bytes _ _ _ Ep (bytes_cons_r _ _ (bytes_app_r _ _ Hx))).
+    + destruct (unescape MUser x) as [n'|] eqn:En; [|discriminate]. inversion H; subst.
+      split; [exact Hh|]. intros ui Hui. inversion Hui; subst. cbn [ui_name ui_pass]. split.
+      * exact (unescape_bytes _ _ _ En Hx).
+      * discriminate.
+  - cbv beta iota zeta in H. destruct (parse_host a) as [host'|] eqn:Eh; [|discriminate]. inversion H; subst.
+    split; [exact (parse_host_bytes _ _ Eh Hb) | intros ui Hui; discriminate Hui].
+Qed.
+
+Lemma cut_fst_bytes sep s : forallb byte_ok s = true -> forallb byte_ok (fst (cut sep s)) = true.
+Proof.
+  intros Hb. destruct (cut sep s) as [a [b|]] eqn:E.
+  - apply cut_some in E as [-> _]. exact (bytes_app_l _ _ Hb).
+  - apply cut_none in E as [-> _]. exact Hb.
+Qed.
+
+Lemma skipn_bytes n s : forallb byte_ok s = true -> forallb byte_ok (skipn n s) = true.
+Proof.
+  intros Hb. rewrite <- (firstn_skipn n s) in Hb. exact (bytes_app_r _ _ Hb).
+Qed.
+
+Lemma no_host_bytes sch o : forallb byte_ok (u_host (no_host sch o)) = true /\ user_bytes (u_user (no_host sch o)).
+Proof. split; [reflexivity | intros ui H; discriminate H]. Qed.
+
+Lemma parse_after_scheme_bytes s0 r u :
+  parse_after_scheme s0 r = Some u -> forallb byte_ok r = true ->
+  forallb byte_ok (u_host u) = true /\ user_bytes (u_user u).
+Proof.
+  intros H Hb. unfold parse_after_scheme in H.
+  pose proof (cut_fst_bytes c_qmark r Hb) as Hr. set (rest := fst (cut c_qmark r)) in *. clearbody rest.
+  destruct (negb (has_prefix rest [c_slash]) && negb (is_nil (lower_ascii s0))); [inversion H; apply no_host_bytes|].
+  destruct (negb (has_prefix rest [c_slash]) && mem_byte c_colon (fst (cut c_slash rest))); [discriminate|].
+  destruct ((negb (is_nil (lower_ascii s0)) || negb (has_prefix rest [c_slash; c_slash; c_slash])) && has_prefix rest [c_slash; c_slash]).
+  - unfold parse_with_authority in H.
+    pose proof (cut_fst_bytes c_slash _ (skipn_bytes 2 rest Hr)) as Ha.
+    destruct (cut c_slash (skipn 2 rest)) as [authority after]. cbn [fst] in Ha.
+    destruct (parse_authority authority) as [[user host]|] eqn:Ep; [|discriminate].
+    destruct (unescape MPath _); [|discriminate]. inversion H; subst. cbn [u_host u_user].
+    exact (parse_authority_bytes _ _ _ Ep Ha).
+  - destruct (unescape MPath rest); [|discriminate]. inversion H. apply no_host_bytes.
+Qed.
+
+Lemma get_scheme_from_rest b s sch r : get_scheme_from b s = SSome sch r -> exists pre, s = pre ++ r.
+Proof.
+  revert b sch. induction s as [|c s IH]; intros b sch H; [discriminate|].
+  unfold get_scheme_from in H; fold get_scheme_from in H.
+  destruct (is_alpha c).
+  - destruct (get_scheme_from false s) as [| |sch' r'] eqn:E; try discriminate. inversion H; subst.
+    destruct (IH _ _ E) as [pre ->]. exists (c :: pre). reflexivity.
+  - destruct (is_digit c || N.eqb c 43 || N.eqb c 45 || N.eqb c 46).
+    + destruct b; [discriminate|].
+      destruct (get_scheme_from false s) as [| |sch' r'] eqn:E; try discriminate. inversion H; subst.
+      destruct (IH _ _ E) as [pre ->]. exists (c :: pre). reflexivity.
+    + destruct (N.eqb c c_colon); [|discriminate]. destruct b; [discriminate|]. inversion H; subst.
+      exists [c]. reflexivity.
+Qed.
+
+Theorem go_parse_bytes src u :
+  go_parse src = Some u -> forallb byte_ok src = true ->
+  forallb byte_ok (u_host u) = true /\ user_bytes (u_user u).
+Proof.
+  intros H Hb. unfold go_parse in H.
+  pose proof (cut_fst_bytes c_hash src Hb) as H0. destruct (cut c_hash src) as [u0 frag]. cbn [fst] in H0.
+  destruct (parse_nofrag u0) as [u'|] eqn:Ep; [|discriminate].
+  assert (u' = u).
+  { destruct frag as [[|f0 f]|]; try (inversion H; reflexivity).
+    destruct (unescape MFragment (f0 :: f)); [inversion H; reflexivity | discriminate]. }
+  subst u'. clear H. unfold parse_nofrag in Ep. destruct (has_ctl u0); [discriminate|].
+  destruct (str_eqb u0 [42]); [inversion Ep; apply no_host_bytes|].
+  destruct (get_scheme u0) as [| |sch r] eqn:Eg; [discriminate | exact (parse_after_scheme_bytes _ _ _ Ep H0)|].
+  destruct (get_scheme_from_rest _ _ _ _ Eg) as [pre ->].
+  exact (parse_after_scheme_bytes _ _ _ Ep (bytes_app_r _ _ H0)).
+Qed.
+
+(* ================================================================== String() output is ASCII *)
+Lemma should_escape_high c m : 128 <= c -> should_escape c m = true.
+Proof.
+  intros H. unfold should_escape.
+  assert (E1 : is_alnum c = false) by (unfold is_alnum, is_alpha, is_upper, is_lower, is_digit; lia). rewrite E1.
+  assert (E2 : forall l, forallb (fun x => x <? 128) l = true -> mem_byte c l = false).
+  { intros l Hl. unfold mem_byte. destruct (existsb (N.eqb c) l) eqn:E; [|reflexivity].
+    apply existsb_exists in E as [x [Hx Hc]]. apply N.eqb_eq in Hc. subst x.
+    rewrite forallb_forall in Hl. specialize (Hl c Hx). lia. }
+  rewrite !E2 by reflexivity. rewrite andb_false_r. destruct m; reflexivity.
+Qed.
+
+
+Lemma escape_ascii m s : forallb byte_ok s = true -> forallb ascii (escape m s) = true.
+Proof.
+  intros Hs. apply forallb_forall. intros c Hin. unfold ascii.
+  destruct (escape_chars m s c Hs Hin) as [->|[G|[_ G]]].
+  - reflexivity.
+  - unfold is_hex, is_digit in G. lia.
+  - destruct (N.ltb_spec c 128) as [|Hge]; [reflexivity|]. rewrite (should_escape_high c m Hge) in G. discriminate.
+Qed.
+
+Lemma hex_escape_id s : forallb ascii s = true -> hex_escape_non_ascii s = s.
+Proof.
+  induction s as [|c s IH]; [reflexivity|]. cbn [forallb]. rewrite andb_true_iff. intros [Hc Hs].
+  unfold hex_escape_non_ascii in *. cbn [flat_map]. unfold ascii in Hc. rewrite Hc, (IH Hs). reflexivity.
+Qed.
+
+Lemma authority_string_ascii sch u :
+  forallb ascii sch = true -> forallb byte_ok (u_host u) = true -> user_bytes (u_user u) ->
+  forallb ascii (authority_string sch u) = true.
+Proof.
+  intros Hs Hh Hu. unfold authority_string. rewrite !forallb_app'.
+  rewrite (escape_ascii MHost _ Hh), andb_true_r. cbn [forallb]. cbn [andb].
+  assert (A : forallb ascii (if is_nil sch then [] else sch ++ [c_colon]) = true).
+  { destruct sch; [reflexivity|]. cbn [is_nil]. rewrite forallb_app', Hs. reflexivity. }
+  rewrite A. cbn [andb]. change (ascii c_slash) with true. cbn [andb].
+  destruct (u_user u) as [ui|] eqn:E; [|reflexivity].
+  destruct (Hu ui eq_refl) as [Hn Hp]. rewrite forallb_app'. cbn [forallb]. rewrite andb_true_r.
+  unfold userinfo_string. rewrite forallb_app', (escape_ascii MUser _ Hn). cbn [andb].
+  destruct (ui_pass ui) as [p|]; [|reflexivity]. cbn [forallb]. rewrite (escape_ascii MUser _ (Hp p eq_refl)). reflexivity.
 Qed.
